@@ -74,8 +74,8 @@ class C01:
         return {'viol': viol, 'out': [cfg, repr(o.result)], 'nt': nt, 'tr': 1}
 
     # ---- CLI clause: --nums file has one number per character written
-    def finish(self, ctx):
-        seed = ctx['seed']
+    # ---- CLI clause: --nums file has one number per character written
+    def conformance_picks(self, seed):
         k = 997 + seed % 13
         picked = []
         for i, case in enumerate(rawspace.cases('quick', 'C01')):
@@ -83,64 +83,72 @@ class C01:
                 picked.append(case)
             if len(picked) >= 120:
                 break
-        rawspace.init_worker()
-        viol = []
+        return picked
+
+    def finish(self, ctx):
+        self.init_worker() if hasattr(self, 'init_worker') else None
         n = 0
+        viol = []
+        for case in self.conformance_picks(ctx['seed']):
+            k, vs = self.conformance_one(case)
+            n += k
+            viol += [(case, v) for v in vs]
+        return {'conformance_replays': n, 'viol': viol}
+
+    def conformance_one(self, case):
         d = core.scratch_dir()
-        for case in picked:
-            src, cfg, o, skip = rawspace.run(case)
-            if skip or o.kind != 'ok' or '\r' in src:
-                continue
-            opts, ml = rawspace.CONFIGS[cfg]
-            fn = os.path.join(d, 'in.tex')
-            with open(fn, 'w', encoding='utf-8', newline='') as f:
-                f.write(src)
-            args = [sys.executable, '-m', 'yalafi', '--pack', opts.get('pack', ''), '--lang', opts['lang'], '--nums', os.path.join(d, 'nums')]
-            if opts.get('seqs'):
-                args.append('--seqs')
-            if opts.get('nosp'):
-                args.append('--nosp')
-            if opts.get('extr'):
-                args += ['--extr', opts['extr']]
-            if opts.get('repl'):
-                with open(os.path.join(d, 'repl.txt'), 'w') as f:
-                    f.writelines(opts['repl'])
-                args += ['--repl', os.path.join(d, 'repl.txt')]
-            if ml:
-                args += ['--mula', os.path.join(d, 'part')]
-            for old in os.listdir(d):
-                if old.startswith('part.') or old.startswith('nums'):
-                    os.unlink(os.path.join(d, old))
-            p = subprocess.run(args + [fn], cwd=d, stdout=subprocess.PIPE, stderr=subprocess.PIPE,
-                               env=dict(os.environ, PYTHONPATH=core.REPO))
-            n += 1
-            problems = []
-            if p.returncode != 0:
-                problems.append('exit status %d: %s' % (p.returncode, p.stderr.decode()[-200:]))
-            elif ml:
-                for lang in o.result:
-                    for nr, (plain, nums) in enumerate(o.result[lang], 1):
-                        try:
-                            txt = open(os.path.join(d, 'part.%d.%s' % (nr, lang)), encoding='utf-8', newline='').read()
-                            lines = open(os.path.join(d, 'nums.%d.%s' % (nr, lang))).read().split()
-                        except OSError as e:
-                            problems.append('missing part file: %s' % e)
-                            continue
-                        if len(lines) != len(txt) or txt != plain or [int(x) for x in lines] != list(nums):
-                            problems.append('part %d.%s: %d characters, %d numbers' % (nr, lang, len(txt), len(lines)))
-            else:
-                txt = p.stdout.decode('utf-8')
-                lines = open(os.path.join(d, 'nums')).read().split()
-                if len(lines) != len(txt):
-                    problems.append('%d characters on stdout, %d numbers' % (len(txt), len(lines)))
-                elif txt != o.result[0] or [int(x.rstrip('+')) for x in lines] != list(o.result[1]):
-                    problems.append('CLI output differs from tex2txt() result')
-                elif any(not 1 <= int(x.rstrip('+')) <= len(src) for x in lines):
-                    problems.append('number out of range')
-            if problems:
-                viol.append((case, {'clause': '--nums file: one number per character written, equal to the API result',
-                                    'sig': 'C01:cli:' + cfg, 'detail': {'source': src, 'args': args[3:], 'problems': problems}}))
-        return {'conformance_replays': n, 'cli_runs': n, 'viol': viol}
+        src, cfg, o, skip = rawspace.run(case)
+        if skip or o.kind != 'ok' or '\r' in src:
+            return 0, []
+        opts, ml = rawspace.CONFIGS[cfg]
+        fn = os.path.join(d, 'in.tex')
+        with open(fn, 'w', encoding='utf-8', newline='') as f:
+            f.write(src)
+        args = [sys.executable, '-m', 'yalafi', '--pack', opts.get('pack', ''), '--lang', opts['lang'], '--nums', os.path.join(d, 'nums')]
+        if opts.get('seqs'):
+            args.append('--seqs')
+        if opts.get('nosp'):
+            args.append('--nosp')
+        if opts.get('extr'):
+            args += ['--extr', opts['extr']]
+        if opts.get('repl'):
+            with open(os.path.join(d, 'repl.txt'), 'w') as f:
+                f.writelines(opts['repl'])
+            args += ['--repl', os.path.join(d, 'repl.txt')]
+        if ml:
+            args += ['--mula', os.path.join(d, 'part')]
+        for old in os.listdir(d):
+            if old.startswith('part.') or old.startswith('nums'):
+                os.unlink(os.path.join(d, old))
+        p = subprocess.run(args + [fn], cwd=d, stdout=subprocess.PIPE, stderr=subprocess.PIPE,
+                           env=dict(os.environ, PYTHONPATH=core.REPO))
+        problems = []
+        if p.returncode != 0:
+            problems.append('exit status %d: %s' % (p.returncode, p.stderr.decode()[-200:]))
+        elif ml:
+            for lang in o.result:
+                for nr, (plain, nums) in enumerate(o.result[lang], 1):
+                    try:
+                        txt = open(os.path.join(d, 'part.%d.%s' % (nr, lang)), encoding='utf-8', newline='').read()
+                        lines = open(os.path.join(d, 'nums.%d.%s' % (nr, lang))).read().split()
+                    except OSError as e:
+                        problems.append('missing part file: %s' % e)
+                        continue
+                    if len(lines) != len(txt) or txt != plain or [int(x) for x in lines] != list(nums):
+                        problems.append('part %d.%s: %d characters, %d numbers' % (nr, lang, len(txt), len(lines)))
+        else:
+            txt = p.stdout.decode('utf-8')
+            lines = open(os.path.join(d, 'nums')).read().split()
+            if len(lines) != len(txt):
+                problems.append('%d characters on stdout, %d numbers' % (len(txt), len(lines)))
+            elif txt != o.result[0] or [int(x.rstrip('+')) for x in lines] != list(o.result[1]):
+                problems.append('CLI output differs from tex2txt() result')
+            elif any(not 1 <= int(x.rstrip('+')) <= len(src) for x in lines):
+                problems.append('number out of range')
+        if problems:
+            return 1, [{'clause': '--nums file: one number per character written, equal to the API result',
+                        'sig': 'C01:cli:' + cfg, 'detail': {'source': src, 'args': args[3:], 'problems': problems}}]
+        return 1, []
 
 
 CHECK = C01()
